@@ -25,6 +25,7 @@
 //!   ["netstat", host] / ["counts", host] / ["rows", host]
 //!   ["udp_bind", slot, host, ia, port] / ["udp_send", slot, len, ia, port]
 //!   ["accept_w", lslot, nslot, task] / ["woken", task]   accept polled with the waker of a simulated task; was it woken?
+//!   ["set_cursor", host, port]            verif hook: next ephemeral port the allocator tries on that host
 //!   ["set_isn", host, value]              verif hook: next initial sequence number of that host
 //!   ["udp_connect", slot, ia, port] / ["udp_send_c", slot, len]   connected UDP: connect, then send / try_send
 //! One observation per command, same index.
@@ -507,6 +508,16 @@ fn run_case(case: &Value) -> Value {
                 let h = c[1].as_u64().unwrap() as usize;
                 if h < hosts.len() {
                     turmoil_net::verif::set_tcp_isn(hosts[h], c[2].as_u64().unwrap() as u32);
+                    json!({"r": "ok"})
+                } else {
+                    json!({"r": "noslot"})
+                }
+            }
+            "set_cursor" => {
+                // verif-hooks: reposition the host's ephemeral-port scan start
+                let h = c[1].as_u64().unwrap() as usize;
+                if h < hosts.len() {
+                    turmoil_net::verif::set_port_cursor(hosts[h], c[2].as_u64().unwrap() as u16);
                     json!({"r": "ok"})
                 } else {
                     json!({"r": "noslot"})
